@@ -59,7 +59,8 @@ def export_edges(ctx, cfg, params, cap=None, res=None):
     rnd = random.Random(ctx.seed)
     behs = rnd.sample(behs, cap)
   st = core.replay(ctx, ADAPTER, behs, params=params, nontrivial=lambda b: len(b) > 1)
-  ctx.notes["replay " + cfg] = dict(behaviours=len(behs), exported=nall, tlc_s=round(r.wall, 1), **st)
+  ctx.notes["replay " + cfg + (" (epoll)" if params.get("epoll") else "")] = dict(
+      behaviours=len(behs), exported=nall, tlc_s=round(r.wall, 1), **st)
   return behs
 
 
@@ -97,6 +98,7 @@ def run(ctx):
               "at least one action after Setup")
   ctx.assumptions = [
       "task programs: sequences of <=2 ops (<=3 over a smaller vocabulary) for 2-3 tasks; delays {0,1,2}; one fd",
+      "both select implementations: select.select and pox.lib.epoll_select.EpollSelect (use_epoll)",
       "scheduler stepped by the harness (cycle(), SelectHub._select, idle()); select() replaced by a polling "
       "shim that advances the virtual clock; threaded hub mode is stepped, not run on a real thread (C07 covers threads)",
       "sub-unit task priorities (randomised by design) and CallBlocking are not modelled; Recv/Send are driven with "
@@ -115,7 +117,9 @@ def run(ctx):
   # (cfg, adapter params, cap in quick)
   exs = [("EX_Q1i.cfg", pi, 3000), ("EX_Q1t.cfg", pt, 2500), ("EX_S2i.cfg", pi, 4000), ("EX_S2t.cfg", pt, 2000),
          ("EX_IO1i.cfg", pi, 3000), ("EX_IO2si.cfg", pi, 2000), ("EX_IO2st.cfg", pt, 1500),
-         ("EX_Ti.cfg", pi, 2000), ("EX_Tt.cfg", pt, 1500)]
+         ("EX_Ti.cfg", pi, 2000), ("EX_Tt.cfg", pt, 1500),
+         # the same hub with use_epoll=True: pox.lib.epoll_select.EpollSelect must behave like select()
+         ("EX_IO1i.cfg", dict(pi, epoll=True), 2000), ("EX_Q1t.cfg", dict(pt, epoll=True), 1500)]
   if not quick:
     exs.append(("EX_Q2i.cfg", pi, 60000))
   n = 100 if quick else 2500
